@@ -681,9 +681,9 @@ Section LoopP.
     pose proof (step_length_pos D st (newton D epsi st)). lra.
   Qed.
 
-  Lemma inner_interior left : forall epsi st, interior D st -> interior D (fst (inner newton norm D left epsi st)).
+  Lemma inner_interior left : forall ittt epsi st, interior D st -> interior D (fst (inner newton norm D left ittt epsi st)).
   Proof.
-    induction left as [|l IH]; intros epsi st I; cbn [inner]; destruct (nltb _ _); cbn [fst]; auto.
+    induction left as [|l IH]; intros ittt epsi st I; cbn [inner]; cbv zeta; destruct (inner_test _ _ _ _); cbn [fst]; auto.
     apply IH, newton_step_interior, I.
   Qed.
 
@@ -704,15 +704,17 @@ Section LoopP.
   Proof. intros I E. unfold subsolv in E. eapply outer_interior; eauto. Qed.
 
   (* ---- exit condition *)
-  Lemma inner_exit left : forall epsi st st', inner newton norm D left epsi st = (st', true) ->
+  Lemma inner_exit left : forall ittt epsi st st', inner newton norm D left ittt epsi st = (st', true) ->
     residumax (residual_st D epsi st') <= 9 / 10 * epsi.
   Proof.
-    induction left as [|l IH]; intros epsi st st' E; cbn [inner] in E;
-      destruct (nltb (dec 9 10 * epsi)%num (residumax (residual_st D epsi st))) eqn:T.
+    induction left as [|l IH]; intros ittt epsi st st' E; cbn [inner] in E; cbv zeta in E;
+      destruct (inner_test epsi (residumax (residual_st D epsi st)) ittt maxittt).
     - discriminate.
-    - injection E as <-. revert T. unfold dec; ops. unfold Rltb. destruct Rlt_dec; [discriminate | intros _; lra].
+    - injection E as <- T. apply negb_true_iff in T. revert T. unfold dec; ops. unfold Rltb.
+      destruct Rlt_dec; [discriminate | intros _; lra].
     - eapply IH; exact E.
-    - injection E as <-. revert T. unfold dec; ops. unfold Rltb. destruct Rlt_dec; [discriminate | intros _; lra].
+    - injection E as <- T. apply negb_true_iff in T. revert T. unfold dec; ops. unfold Rltb.
+      destruct Rlt_dec; [discriminate | intros _; lra].
   Qed.
 
   Lemma outer_exit fuel : forall epsimin epsi st last ok st' e,
@@ -726,7 +728,7 @@ Section LoopP.
     - injection E as <- <- ->. destruct (Inv eq_refl) as [I1 [I2 I3]].
       revert T. unfold outer_test; ops. unfold Rltb. destruct Rlt_dec; [discriminate | intros _]. lra.
     - eapply IH; [exact E|]. intros Ok.
-      destruct (inner newton norm D maxittt epsi st) as [s1 b1] eqn:Ei. cbn [fst snd] in *. subst b1.
+      destruct (inner newton norm D maxittt 0 epsi st) as [s1 b1] eqn:Ei. cbn [fst snd] in *. subst b1.
       split; [eapply inner_exit; exact Ei|].
       revert T. unfold outer_test, epsi_next; ops. unfold Rltb. destruct Rlt_dec; [intros _ | discriminate]. lra.
     - injection E as <- <- ->. destruct (Inv eq_refl) as [I1 [I2 I3]].
